@@ -144,11 +144,12 @@ def ensure(variant, h=None):
         _run(["cmake", "--build", d, "--target", "kalign_static", "kalign-bin", "-j", "16"], log=log)
         # probe: the only harness file that sees kalign's internal headers
         omp = "" if variant in ("noomp", "fuzz") else "-fopenmp"
-        cmd = [cc] + cflags.replace("-fsanitize=fuzzer-no-link,", "-fsanitize=").split() + \
+        heap = ["-DHEAP_ACCOUNT"] if variant == "plain" else []
+        cmd = [cc] + heap + cflags.replace("-fsanitize=fuzzer-no-link,", "-fsanitize=").split() + \
             ["-DHAVE_OPENMP" if omp else "-DNO_OPENMP",
              "-I", os.path.join(REPO, "lib", "include"), "-I", os.path.join(REPO, "lib", "src"),
              "-I", os.path.join(d, "lib"),
-             os.path.join(NATIVE, "probe.c"), out["lib"], "-o", out["probe"], "-lm", "-lpthread"]
+             os.path.join(NATIVE, "probe.c"), out["lib"], "-o", out["probe"], "-lm", "-lpthread", "-ldl"]
         if omp:
             cmd.append(omp)
         cmd += ldflags.split()
